@@ -1271,34 +1271,38 @@ func TestC10Lnwire(t *testing.T) {
 		"rule": "lnwire half: inputs are enumerated exhaustively per (codec, seed, family) as listed in the header of harness/c10/lnwire_test.go; an input is non-trivial when the real decoder ACCEPTED it, " +
 			"so that the re-encode / re-decode / equality / fixpoint clauses O3-O5 all ran on it; distinct = distinct (codec, byte string) pairs: structural for the all-short-bodies family, " +
 			"a merged set of 64-bit hashes for all other families",
-		"samples":                           a.samples,
-		"exhaustive":                        len(a.capsHit) == 0 && !broken.Load() && onlyCodec == "",
-		"caps_hit":                          a.capsHit,
-		"lnwire_outcomes":                   a.outcomes,
-		"lnwire_per_codec":                  perCodec,
-		"lnwire_codecs":                     len(co.codecs),
-		"lnwire_message_types":              nMsg,
-		"lnwire_failure_codes":              nFail,
-		"lnwire_seeds":                      seedsTotal,
-		"lnwire_wellformed_values":          wellFormed,
-		"lnwire_plan_items":                 len(order),
-		"lnwire_accepted_hashes":            int(nh),
-		"lnwire_alloc_max_bytes":            a.allocMax,
-		"lnwire_alloc_max_at":               a.allocMaxAt,
-		"lnwire_alloc_max_per_codec":        a.allocCodec,
-		"lnwire_violation_signatures":       a.sigs,
-		"lnwire_worker_seconds_per_family":  a.secsFam,
-		"lnwire_worker_seconds_per_codec":   a.secsCodec,
-		"lnwire_alloc_bound_bytes":          map[string]int{"plain": allocCPlain * kib64, "heavy": allocCHeavy * kib64},
-		"lnwire_alloc_precise_measurements": int(a.precise),
-		"lnwire_alloc_rechecked":            int(a.rechecked),
-		"lnwire_max_reads_per_byte":         a.maxReads,
-		"lnwire_worker_deaths":              a.crashes,
-		"lnwire_full_chain_evaluations":     int(a.fullChain),
-		"lnwire_inputs_over_65535_skipped":  int(a.oversize),
-		"lnwire_codecs_single_outcome":      vacuous,
-		"lnwire_corpus_notes":               co.notes,
-		"lnwire_workers":                    nw,
+		"samples":                             a.samples,
+		"exhaustive":                          len(a.capsHit) == 0 && !broken.Load() && onlyCodec == "",
+		"caps_hit":                            a.capsHit,
+		"lnwire_outcomes":                     a.outcomes,
+		"lnwire_per_codec":                    perCodec,
+		"lnwire_codecs":                       len(co.codecs),
+		"lnwire_message_types":                nMsg,
+		"lnwire_failure_codes":                nFail,
+		"lnwire_seeds":                        seedsTotal,
+		"lnwire_wellformed_values":            wellFormed,
+		"lnwire_plan_items":                   len(order),
+		"lnwire_accepted_hashes":              int(nh),
+		"lnwire_alloc_max_bytes":              a.allocMax,
+		"lnwire_alloc_max_at":                 a.allocMaxAt,
+		"lnwire_alloc_max_per_codec":          a.allocCodec,
+		"lnwire_violation_signatures":         a.sigs,
+		"lnwire_worker_seconds_per_family":    a.secsFam,
+		"lnwire_worker_seconds_per_codec":     a.secsCodec,
+		"lnwire_alloc_bound_bytes":            map[string]int{"plain": allocCPlain * kib64, "heavy": allocCHeavy * kib64},
+		"lnwire_alloc_precise_measurements":   int(a.precise),
+		"lnwire_alloc_rechecked":              int(a.rechecked),
+		"lnwire_max_reads_per_byte":           a.maxReads,
+		"lnwire_worker_deaths":                a.crashes,
+		"lnwire_full_chain_evaluations":       int(a.fullChain),
+		"lnwire_field_sweep_triples":          int(a.triples),
+		"lnwire_field_sweep_fields":           a.sweptFields,
+		"lnwire_field_sweep_fields_per_codec": a.sweptTypes,
+		"lnwire_field_sweep_range":            fmt.Sprintf("[0,%d] + {2^k-1,2^k,2^k+1 : k<=width} + max (+ -1,-2,min for signed)", sweepUpto(thorough)),
+		"lnwire_inputs_over_65535_skipped":    int(a.oversize),
+		"lnwire_codecs_single_outcome":        vacuous,
+		"lnwire_corpus_notes":                 co.notes,
+		"lnwire_workers":                      nw,
 	}
 	run.Assumptions = append(run.Assumptions,
 		"lnwire half: 'all byte strings up to 65535 bytes' is covered through all bodies <= 2 (quick) / <= 3 (thorough) bytes and the stated single-edit neighbourhoods of a fixed corpus; seeds come from the repository's RandTestMessage generators with fixed rapid seeds (sampling) - the enumeration around each seed is exhaustive",
